@@ -194,33 +194,24 @@ func runC15(c0 *Ctx) error {
 		}
 		t0 = time.Now()
 	}
-	if err := c15OptimizeCorpus(c); err != nil {
-		return err
+	// VERIF_C15_ONLY=<phase> (development aid): run that phase alone
+	only := os.Getenv("VERIF_C15_ONLY")
+	for _, ph := range []struct {
+		name string
+		run  func(*Ctx) error
+	}{
+		{"corpus", c15OptimizeCorpus}, {"fanout", c15Fanout}, {"diff", c15DiffCases}, {"sequences", c15SeqCases},
+		{"optimize", c15OptimizeCases}, {"bsdiff", c15Bsdiff}, {"reused-context", c15ReuseCases}, {"race", c15RaceCases},
+	} {
+		if only != "" && only != ph.name {
+			continue
+		}
+		if err := ph.run(c); err != nil {
+			return err
+		}
+		phase(ph.name)
 	}
-	phase("corpus")
-	if err := c15Fanout(c); err != nil {
-		return err
-	}
-	phase("fanout")
-	if err := c15DiffCases(c); err != nil {
-		return err
-	}
-	phase("diff")
-	if err := c15SeqCases(c); err != nil {
-		return err
-	}
-	phase("sequences")
-	if err := c15OptimizeCases(c); err != nil {
-		return err
-	}
-	phase("optimize")
-	if err := c15Bsdiff(c); err != nil {
-		return err
-	}
-	phase("bsdiff")
-	err := c15RaceCases(c)
-	phase("race")
-	return err
+	return nil
 }
 
 // ---------------------------------------------------------------- fan-out (multiread + taskgroup)
@@ -817,7 +808,11 @@ func (l *c15Lag) onMessage() {
 // rng != nil: both inputs are handed over by readers that slice, yield and end as mode says
 // lag != nil: the consumer's callbacks take their time (see c15Lag)
 func c15RunBsdiff(old, nw []byte, partitions, conc int, rng *lib.Rng, mode int, lag *c15Lag) (stream []byte, ms []c15Match, replay []byte, blocks int, progress []float64, err error) {
-	dc := &bsdiff.DiffContext{Partitions: partitions, SuffixSortConcurrency: conc}
+	return c15RunBsdiffOn(&bsdiff.DiffContext{Partitions: partitions, SuffixSortConcurrency: conc}, old, nw, rng, mode, lag)
+}
+
+// the same on a context the caller hands over (a fresh one, or one that has diffed before: c15_reuse.go)
+func c15RunBsdiffOn(dc *bsdiff.DiffContext, old, nw []byte, rng *lib.Rng, mode int, lag *c15Lag) (stream []byte, ms []c15Match, replay []byte, blocks int, progress []float64, err error) {
 	var mu sync.Mutex
 	scanning := false
 	cons := &state.Consumer{
